@@ -31,7 +31,14 @@ var optFlip int
 
 func (c config) opts() ls.Options {
 	optFlip++
-	return ls.Options{SysEx: c.sysex, TimeCode: true, ActiveSense: true, BufSize: c.buf, Reversed: optFlip%2 == 1}
+	// every third listener gets a buffer size option in front of the one that
+	// counts (a small one, a large one in turn): the later option is the
+	// configured size
+	var earlier uint32
+	if optFlip%3 == 0 {
+		earlier = []uint32{3, 70000}[(optFlip/3)%2]
+	}
+	return ls.Options{SysEx: c.sysex, TimeCode: true, ActiveSense: true, BufSize: c.buf, Reversed: optFlip%2 == 1, Earlier: earlier}
 }
 
 func (c config) String() string { return fmt.Sprintf("sysex=%v/buf=%d", c.sysex, c.buf) }
@@ -763,6 +770,10 @@ func replay() {
 			n += int(c.(float64))
 		}
 	}
-	feed(cfg, stream, chunks, 0)
+	// option order, the error handler and an earlier buffer size option rotate
+	// with a counter: all six variants
+	for i := 0; i < 6; i++ {
+		feed(cfg, stream, chunks, 0)
+	}
 	ctx.Finish("replay")
 }
